@@ -460,11 +460,19 @@ Definition c04_sb (c : cfg) (init : N) (hist : list round_obs) (o : seen) : bool
 (** C19.  Sizes 1, 2, 4, ... up to the first passing round, constant from
     there; only the rounds from the first passing one on (or the newest one,
     if none passed) left samples, as many as their threads; the final size is
-    the last round's; the rounds follow the rule with the first passing round
+    the last round's; allocation info is held for exactly the kept samples that
+    allocated; the rounds follow the rule with the first passing round
     counting as the first recorded one and the time ceiling covering the
     tuning rounds. *)
 Definition expected_samples (c : cfg) (size : N) (kept : list round_obs) : list N :=
   flat_map (fun o => map (fun r => sample_duration c size r (dur_ps (c_freq c) (r_end r) (r_start r))) o) kept.
+
+(** Indices (from [i] on) of the samples that come with allocation info. *)
+Fixpoint alloc_keys_from (i : N) (l : list raw) : list N :=
+  match l with
+  | [] => []
+  | r :: rest => (if ai_is_empty (r_alloc r) then [] else [i]) ++ alloc_keys_from (i + 1) rest
+  end.
 
 Definition c19_sb (c : cfg) (init : N) (hist : list round_obs) (o : seen) : bool :=
   let k := length hist in
@@ -475,7 +483,7 @@ Definition c19_sb (c : cfg) (init : N) (hist : list round_obs) (o : seen) : bool
     list_eqb (o_samples o) (expected_samples c (o_final_size o) (kept_of c hist)) &&
     (o_final_size o =? match k with O => 0 | S k' => size_of_round c hist k' end) &&
     (if c_input_counts c then (length (o_counts o) =? length (o_samples o))%nat else true) &&
-    forallb (fun key => key <? N.of_nat (length (o_samples o))) (o_alloc_keys o) &&
+    list_eqb (o_alloc_keys o) (alloc_keys_from 0 (concat (kept_of c hist))) &&
     forallb (fun j => continue_after c init hist j) (seq 0 k) &&
     (if o_done o then negb (continue_after c init hist k) else continue_after c init hist k) &&
     (o_stat_samples o =? N.of_nat (length (o_samples o))) &&
